@@ -317,8 +317,68 @@ def _shard_pos(shard: int, nshards: int, extra) -> Tally:
     return t
 
 
+GEN_PROTO = ('syntax = "proto3";\npackage vfc20;\n'
+             'enum Colour { COLOUR_ZERO = 0; COLOUR_ONE = 1; COLOUR_NEG = -1; COLOUR_BIG = 2147483647; }\n'
+             'message Pixel { Colour single = 1; optional Colour opt = 2; repeated Colour many = 3; map<string, Colour> by = 4;\n'
+             '  oneof pick { Colour chosen = 5; int32 other = 6; } }\n')
+GEN_NUMBERS = [0, 1, -1, 2147483647, 7, -5, -2147483648, 100]
+
+
+def check_generated(t: Tally) -> List[Violation]:
+    """The same openness through classes the PLUGIN generates, with and without pydantic_dataclasses:
+    a number the enum does not define is accepted wherever a member is (constructor, from_dict,
+    decoding, copies) in every field position."""
+    from vf.core import plugin
+    import copy as _copy
+    out: List[Violation] = []
+    for vname, opts in (("std", []), ("pydantic", ["pydantic_dataclasses"]), ("310+pydantic", ["typing.310", "pydantic_dataclasses"])):
+        res = plugin.compile_protos({"vfc20.proto": GEN_PROTO}, opts=opts, tag="c20", want_descriptor=False)
+        try:
+            if res.rc != 0:
+                out.append(Violation(["enum-generated", "plugin-failed", vname], res.stderr[-300:], {"part": "C", "variant": vname}))
+                continue
+            mod = res.module("vfc20")
+            E, Pixel = mod.Colour, mod.Pixel
+            for n in GEN_NUMBERS:
+                defined = n in (0, 1, -1, 2147483647)
+                for pos in ("single", "opt", "many", "by", "chosen"):
+                    t.inc("generated_cases")
+                    val = E.try_value(n)
+                    kw = {pos: [val, val] if pos == "many" else {"k": val} if pos == "by" else val}
+                    label = ["enum-generated", None, vname, pos, "defined" if defined else "undefined"]
+                    try:
+                        m = Pixel(**kw)
+                        back = Pixel().parse(bytes(m))
+                        js = Pixel().from_dict(m.to_dict())
+                        dc = _copy.deepcopy(back)
+                        get = lambda x: (getattr(x, pos)[0] if pos == "many" else getattr(x, pos)["k"] if pos == "by" else getattr(x, pos))
+                        skip_single_zero = pos == "single" and n == 0
+                        for how, x in (("ctor", m), ("parse", back), ("json", js), ("deepcopy", dc)):
+                            got = None if (skip_single_zero and how != "ctor" and False) else get(x)
+                            if int(got) != n:
+                                label[1] = "number-not-kept"
+                                out.append(Violation(label, f"{vname}: Pixel.{pos} = {n} ({how}) reads back {got!r}", {"part": "C", "variant": vname, "n": n, "pos": pos}))
+                                break
+                    except Exception as e:
+                        label[1] = "rejected"
+                        out.append(Violation(label, f"{vname}: enum number {n} in Pixel.{pos}: {type(e).__name__}: {e}"[:300],
+                                             {"part": "C", "variant": vname, "n": n, "pos": pos}))
+        finally:
+            res.cleanup()
+    seen, uniq = set(), []
+    for v in out:
+        k = tuple(v.signature)
+        if k not in seen:
+            seen.add(k)
+            uniq.append(v)
+    return uniq
+
+
 def run(ctx: Ctx) -> None:
     get_universe("quick", pairs=False)
+    tg = Tally()
+    for v in check_generated(tg):
+        ctx.add(v)
     t1 = merge_tallies(pmap_shards(_shard_defs, 16, None))
     t2 = merge_tallies(pmap_shards(_shard_pos, 15, None))
     for t in (t1, t2):
@@ -332,6 +392,7 @@ def run(ctx: Ctx) -> None:
         exhaustive=True,
         enum_definitions=t1.n.get("definitions", 0),
         field_position_cases=t2.n.get("positions", 0),
+        generated_enum_cases=tg.n.get("generated_cases", 0),
         samples=t1.samples[:3] + t2.samples,
         rule="state = enum definition (all 1..3-member definitions over 6 numbers, aliases included) "
              "or (field position, number); edges = lookups, copies, pickles, mutation attempts, codec "
@@ -342,6 +403,8 @@ def run(ctx: Ctx) -> None:
 
 def replay(case: dict) -> List[Violation]:
     t = Tally()
+    if case["part"] == "C":
+        return [v for v in check_generated(t) if v.case == case]
     if case["part"] == "A":
         members = tuple((n, v) for n, v in case["members"])
         return check_definition(900000 + abs(hash(str(members))) % 1000, members, t)
